@@ -2206,6 +2206,9 @@ fragsize_check(char *in, int read, int proposed_fragsize, int *max_fragsize)
 			fprintf(stderr, "%d corrupted at %d.. ", acked_fragsize, i);
 		}
 		fflush(stderr);
+		/* The path alters bytes of this downstream codec: a smaller
+		   fragment would only hide that, data would still be corrupted */
+		*max_fragsize = -1;
 		return 1;
 	}
 
